@@ -237,6 +237,40 @@ CHECKS.update({
     ),
 })
 
+CHECKS.update({
+    "C07": dict(
+        engine="LazyPool.tla, ParallelMap.tla, BatchMap.tla", category="fault_enumeration",
+        text="The failure paths of the three parallel pipelines are model checked (LazyPool: a failing input at "
+             "every position never yields a normal end and always surfaces, no deadlock; ParallelMap: a panicking "
+             "item never leads to a normal end; BatchMap: the ordered map re-raises) and exercised on the real "
+             "code (failing schedules on the real LazyPool with structural deadlock detection, panicking plans on "
+             "the real Rust parallel_map). End to end, real fb / npz / tfrec datasets with one shard deleted, "
+             "emptied or overwritten with garbage (first, middle, last; thorough: truncated, single-shard, more "
+             "compressions, repeat) are read through every interface, shuffle on/off, file_parallelism 1/2, each "
+             "pass under a watchdog: an exception must reach the consumer - never a hang, never a normal end "
+             "without the shard's examples. 'Rejected by the decoder' is decided by the third-party decoder.",
+        design_ref="DESIGN.md 5/C07",
+        note="Thread timings inside ThreadPoolExecutor, tf.data and asyncio are sampled; bounded time = 60 s "
+             "watchdog (normal passes take milliseconds); LazyPool hangs are also proven structurally.",
+        technique="TLA+ model checking of the failure paths + fault enumeration on real damaged datasets under a watchdog",
+    ),
+    "C14": dict(
+        engine="ShuffleBuffer.tla, RoundRobin.tla, BatchMap.tla, LazyPool.tla, ParallelMap.tla", category="model_checking",
+        text="The read-ahead of every buffering stage is a state invariant that does not mention the source length "
+             "(shuffle buffer B+1, round robin B open iterators, lazy pool prefill+1, batch map P shards, Rust map T "
+             "tasks), checked by TLC for sources of several lengths and for the cyclic source (Productive: a finite "
+             "take never blocks). On the real code the same quantities are measured for sources of N, 2N, 4N "
+             "elements (identical maxima, within the model's bound), a finite take from an endless LazyPool source "
+             "returns, and end to end the shard files opened while taking k examples (inotify: Python, TensorFlow "
+             "and Rust threads alike) from finite and repeating datasets of 20/40/80 shards stay below a bound "
+             "computed from shuffle and file_parallelism alone, for all five interfaces and three formats.",
+        design_ref="DESIGN.md 5/C14",
+        note="Exact constants are reported, not demanded; the alarm bound is deliberately loose "
+             "(4*(shuffle+file_parallelism)+8 shards). Threaded paths are maxima over repeated runs.",
+        technique="TLA+ read-ahead invariants + pull/yield measurements on the real generators + inotify-observed file opens",
+    ),
+})
+
 NOT_YET = {}
 
 ALL = [f"C{i:02d}" for i in range(1, 21)]
